@@ -26,7 +26,8 @@ ASSUMPTIONS = [
     'Rayleigh and Mie components are checked for proportionality to abundance / against C19, not against an independent cross-section',
     'H- (HydrogenIon) is generated with constant H and e- abundances: its absorption law is outside this property and is not judged; the product rule, order independence, single component and proportionality to the electron abundance are',
 ]
-REQUIRED = {'chemistry:stored': 0.2, 'opacity:ktables': 0.06, 'has-hminus': 0.1, 'probe:contrib-first': 0.08, 'ncontrib>=2': 0.5, 'multi-component': 0.4, 'zero-species': 0.15, 'probe:fresh': 0.1,
+RULE = RULE + ' ' + "Also: a chemistry that hands out the arrays it keeps instead of copies (class chemistry:stored); each source's own transmittance against exp(-sum sigma x density^(1|2) x chord) (source-path-integral); integer-axis world forms."
+REQUIRED = {'failed-evaluation-then-repaired': 0.06, 'chemistry:stored': 0.2, 'opacity:ktables': 0.06, 'has-hminus': 0.1, 'probe:contrib-first': 0.08, 'ncontrib>=2': 0.5, 'multi-component': 0.4, 'zero-species': 0.15, 'probe:fresh': 0.1,
             'probe:subgrid': 0.1, 'probe:param-change': 0.1}
 POOL = ['Absorption', 'CIA', 'Rayleigh', 'SimpleClouds', 'FlatMie', 'LeeMie', 'HydrogenIon']
 
@@ -54,7 +55,10 @@ def _case(draw):
     # H- needs atomic hydrogen and free electrons in the mixture
     w['hminus'] = {'H': draw(st.floats(-4.0, -1.5)), 'e': draw(st.floats(-9.0, -4.0))} if 'HydrogenIon' in order else None
     return {'world': w, 'order': list(order), 'order2': draw(S.perm(list(order))), 'zero': zero,
-            'mie': mie, 'probe': probe, 'new_path': draw(st.booleans())}
+            'mie': mie, 'probe': probe, 'new_path': draw(st.booleans()),
+            # a first evaluation that fails (a collision pair whose partner the mixture does not hold; the caller catches
+            # the error and takes the pair out again) before the model is used
+            'cia_failure': draw(S.pick([False, True, False, True]))}
 
 
 def strategy(tier):
@@ -140,6 +144,20 @@ def check(case):
             return out
         cnames = [c.name for c in m.contribution_list]
         out.cls('ncontrib>=2' if len(cnames) >= 2 else 'ncontrib=1')
+        cia_c = [c for c in m.contribution_list if c.name == 'CIA']
+        if case.get('cia_failure') and cia_c and W.cia_pair is not None:
+            from taurex.cache import CIACache
+            Tg_, tab_ = W.cia_table
+            absent = '%s-Xe' % W.cia_pair.split('-')[0]                 # xenon is in no generated mixture
+            CIACache().add_cia(synth.SynthCIA(absent, W.wn, Tg_, tab_ * 3.0))
+            good_pairs = list(cia_c[0].ciaPairs)
+            cia_c[0].ciaPairs = good_pairs + [absent]
+            try:
+                with np.errstate(all='ignore'):
+                    m.model()
+            except Exception:
+                out.cls('failed-evaluation-then-repaired')
+            cia_c[0].ciaPairs = good_pairs
         # ---- the per-component probe, possibly on a fresh model --------------------------
         sub = None
         changed = False
